@@ -255,6 +255,15 @@ func (fr *Frame) modularCall(ins ssa.Instruction, callee *ssa.Function, ct *Cont
 func (fr *Frame) inlineCall(ins ssa.Instruction, callee *ssa.Function, args, free []Val, rt types.Type) Val {
 	q := fr.q
 	child := newFrame(q, callee, fr)
+	if mc, ok := callCommonOf(ins).Value.(*ssa.MakeClosure); ok {
+		for i, b := range mc.Bindings {
+			if i < len(callee.FreeVars) {
+				if r, ok := fr.resolveLocal(b); ok {
+					child.freeLocal[callee.FreeVars[i]] = r
+				}
+			}
+		}
+	}
 	child.run(args, free, fr.cur.st, fr.cur.reach)
 	if len(child.unsupported) > 0 {
 		fr.unsupported = append(fr.unsupported, child.unsupported...)
@@ -302,6 +311,18 @@ func (fr *Frame) inlineCall(ins ssa.Instruction, callee *ssa.Function, args, fre
 	fr.cur.reach = nr
 	fr.cur.st = q.merge(child.prefix+"r", conds, sts)
 	return res
+}
+
+func callCommonOf(ins ssa.Instruction) *ssa.CallCommon {
+	switch x := ins.(type) {
+	case *ssa.Call:
+		return &x.Call
+	case *ssa.Defer:
+		return &x.Call
+	case *ssa.Go:
+		return &x.Call
+	}
+	return &ssa.CallCommon{}
 }
 
 // ---------- defers ----------
@@ -742,6 +763,20 @@ func (fr *Frame) loopHeaderState(li *loopInfo, in *State) *State {
 	restore := fr.snapshotLocalsFor(hs, func(a *ssa.Alloc) bool { return stored[a] || li.blocks[a.Block()] }, ms)
 	fr.havocMod0(hs, ms)
 	restore(hs)
+	// scalar-replaced locals assigned in the loop get fresh values at the header
+	for f := fr; f != nil; f = f.parent {
+		for a, key := range f.localKey {
+			if !stored[a] {
+				continue
+			}
+			keys, sorts := fr.localLeafKeys(localRef{key: key}, a.Type().(*types.Pointer).Elem())
+			for i, k := range keys {
+				if _, ok := hs.v[k]; ok {
+					hs.v[k] = fr.q.fresh(fr.prefix+"_lh", sorts[i])
+				}
+			}
+		}
+	}
 	// ghost scalars may change in loops too
 	for k := range hs.v {
 		if strings.HasPrefix(k, "$") && k != "$top" && ghostLoopHavoc[k] {
